@@ -19,7 +19,7 @@ func init() {
 	register(&Check{
 		ID: "C09", Level: "exploration", Primary: "connections", EvalCount: "requests_tagged",
 		Rule: "16..256 concurrent clients run open / k requests of mixed operations / close / reconnect cycles against one long-lived server; every request carries the client-side connection tag in a DN; idle, " +
-			"malformed-frame and instantly-closed connections are interleaved (they consume IDs too), followed by replacements of the server's router while connections are open, by connections that are upgraded with StartTLS in the middle, by a long-lifetime phase (70 000+ short connections next to one long-lived one) and by episodes in which Accept fails temporarily (descriptor exhaustion) between two tagged connections. Oracle: tag -> ConnectionID is a function (stable per connection) and injective over the whole server lifetime " +
+			"malformed-frame and instantly-closed connections are interleaved (they consume IDs too), followed by replacements of the server's router while connections are open, by connections that are upgraded with StartTLS in the middle, by a long-lifetime phase (70 000+ short connections next to one long-lived one, which in the thorough tier goes on to issue more than 2^21 requests) and by episodes in which Accept fails temporarily (descriptor exhaustion) between two tagged connections. Oracle: tag -> ConnectionID is a function (stable per connection) and injective over the whole server lifetime " +
 			"(never reused, even after close; also after another gldap server was started in the same process), IDs > 0 - also when a handler asks again after its client has hung up -, and the ID passed to OnClose after a tagged connection ended is the one its handlers saw, exactly once. " +
 			"distinct_nontrivial = distinct tagged connections that issued at least two requests and were closed and reported via OnClose",
 		Assume: []string{"a connection is identified client-side by the tag it puts into its requests"},
@@ -382,6 +382,33 @@ func c09Run(c *Ctx) {
 			}()
 		}
 		swg.Wait()
+		if !c.Quick() {
+			// one connection that issues more than 2^21 requests (thorough tier): the ID its handlers see does not
+			// depend on how many requests came before
+			const total = 1<<21 + 5000
+			go func() {
+				var buf []byte
+				for i := 0; i < total; i++ {
+					buf = append(buf, sber.Message(int64(10+i%1000000), sber.BindRequest(3, []byte("tag=long-lived"), []byte("p")), nil).Encode()...)
+					if len(buf) > 60000 {
+						if long.Send(buf) != nil {
+							return
+						}
+						buf = buf[:0]
+					}
+				}
+				long.Send(buf)
+			}()
+			got := 0
+			for got < total {
+				if _, err := long.ReadMsg(patience); err != nil {
+					c.Inconclusive(fmt.Sprintf("long request stream: %v after %d responses", err, got))
+					break
+				}
+				got++
+			}
+			c.Count("requests_on_one_connection_in_a_row", int64(got))
+		}
 		long.Send(sber.Message(2, sber.BindRequest(3, []byte("tag=long-lived"), []byte("p")), nil).Encode())
 		long.ReadMsg(patience)
 		long.Close()
